@@ -29,6 +29,8 @@ func checkC02(c *Ctx) {
 	c.Rule("C02.R7", "per-row state in scan loops is per-iteration: in every loop calling rows.Scan, a local cell allocated outside the loop that is not an accumulator (not read after the loop) is definitely assigned, field by field, before each read in the same iteration — so no row's verdict (expired, state, id) carries over to the next row")
 	checkScanLoopRowState(c, "C02.R7")
 	c.Rule("C02.R8", "a delivered/dead/canceled message is stamped alike in both backends (the analysis of C13.R10): retention eligibility is measured from that stamp, so a message is pruned only when the configured window since the terminal transition has passed")
+	c.Rule("C02.R9", "a drop_oldest eviction takes one message per counted eviction: the one-at-a-time SQL evictor's DELETE is keyed by a single id (id = ? / id = (SELECT … LIMIT 1)), so a message disappears only in exchange for one that is stored")
+	checkEvictionSingleRow(c, "C02.R9", nil)
 	checkTerminalTimeParity(c, "C02.R8")
 }
 
